@@ -426,6 +426,24 @@ func genC11(c *Ctx) {
 					verify("length", pk, hs.h, msg, o)
 					fmtCase("fmt-length", o)
 				}
+				// a valid pair with bytes inserted: in the middle, in front, behind, inside either half (odd and even
+				// totals; a length test that halves the length rounds 65 down to 32 + 32)
+				rr, ss := sig[:32], sig[32:]
+				cat := func(parts ...[]byte) []byte {
+					var o []byte
+					for _, p := range parts {
+						o = append(o, p...)
+					}
+					return o
+				}
+				for _, fill := range []byte{0x00, 0x01, 0xff} {
+					f1, f2 := []byte{fill}, []byte{fill, fill}
+					for _, o := range [][]byte{cat(rr, f1, ss), cat(f1, rr, ss), cat(rr, ss, f1), cat(rr, f2, ss), cat(f1, rr, f1, ss), cat(f1, rr, ss, f1),
+						cat(rr[:31], ss), cat(rr, ss[:31]), cat(rr[1:], ss), cat(rr[:16], f1, rr[16:], ss), cat(rr, f1, ss[:31]), cat(rr[:31], f1, ss)} {
+						verify("padded-pair", pk, hs.h, msg, o)
+						fmtCase("fmt-padded-pair", o)
+					}
+				}
 				fmtCase("fmt-valid", sig)
 				// crafted key whose signature on msg has a tiny s, so that (r, s+n) still fits 32 bytes:
 				// k = s^-1 (e + r d), d' = (s' k - e) r^-1
